@@ -36,7 +36,7 @@ package main
 // quick: every set of genuine frames already received x every choice of the one received last
 // (193 histories), the inserted frame, then the remaining genuine frames in ascending order.
 // thorough: every permutation x every position (5040), and besides single inserted frames every
-// ordered PAIR of inserted frames with header variant 0/1 in the same place.
+// ordered PAIR of inserted frames (both with header variant 1) in the same place.
 
 import (
 	"fmt"
@@ -247,7 +247,7 @@ func fragSlots() []fragSlot {
 }
 
 // fragInserts: the inserted frame sequences (one rejected frame of every kind x header variant;
-// thorough: also ordered pairs of rejected frames with header variant 0 or 1).
+// thorough: also ordered pairs of rejected frames, both with header variant 1).
 var fragInsertsCache [][]int
 
 func fragInserts() [][]int {
@@ -261,7 +261,7 @@ func fragInserts() [][]int {
 		hv := len(fragHeaderVariants)
 		for r1 := 0; r1 < fragNR(); r1++ {
 			for r2 := 0; r2 < fragNR(); r2++ {
-				if r1%hv <= 1 && r2%hv <= 1 {
+				if r1%hv == 1 && r2%hv == 1 {
 					fragInsertsCache = append(fragInsertsCache, []int{r1, r2})
 				}
 			}
